@@ -65,6 +65,20 @@ func LazyAfterOther(t *rapid.T, prop string, rank bool) (string, []string, bool)
 // does it create anything (no initialization callback runs a second time).
 func VariantLookups(in *Instance) error {
 	type snap struct{ init, aps int }
+	// first the lookups under the registered names themselves (they may create a lazy component, or re-attempt a
+	// creation that was refused before - which runs callbacks again, legitimately) ...
+	want := map[string]any{}
+	for _, c := range in.G.Pop {
+		if c.ID < 0 || !in.WasCreated(c.ID) {
+			continue
+		}
+		var got any
+		var err error
+		if p := kit.Protect(func() { got, err = in.Out.App.GetComponentByName(c.Name) }); p == nil && err == nil {
+			want[c.Name] = got
+		}
+	}
+	// ... then, from that state on, the look-alike names: nothing is created by them
 	before := map[int]snap{}
 	for i, b := range in.Behs {
 		if b != nil {
@@ -72,12 +86,8 @@ func VariantLookups(in *Instance) error {
 		}
 	}
 	for _, c := range in.G.Pop {
-		if c.ID < 0 || !in.WasCreated(c.ID) {
-			continue
-		}
-		var want any
-		var werr error
-		if p := kit.Protect(func() { want, werr = in.Out.App.GetComponentByName(c.Name) }); p != nil || werr != nil {
+		want, ok := want[c.Name]
+		if c.ID < 0 || !ok {
 			continue
 		}
 		variants := []string{" " + c.Name, c.Name + " ", "\t" + c.Name}
